@@ -33,7 +33,7 @@ ASSUMPTIONS = [
     "x-ray digest samples 12 atoms (not all 92 tables) to keep a history under 0.4 s; C05/C20 sweep the tables",
 ]
 
-CALC_GROUP = {"neutron_sld": "neutron", "neutron_scattering": "neutron", "xray_sld": "xray", "volume": "covalent_radius",
+CALC_GROUP = {"xray_n": "xray", "xray_N": "xray", "xray_all_fwd": "xray", "xray_all_rev": "xray", "neutron_sld": "neutron", "neutron_scattering": "neutron", "xray_sld": "xray", "volume": "covalent_radius",
               "activation": "activation", "list": "covalent_radius", "emission_table": "emission", "sld_table": "neutron",
               "D2O_sld": "neutron", "fasta": "neutron", "xray_f0": "xray", "magnetic": "magnetic_ff"}
 INIT_GROUP = {"nsf.init": "neutron", "xsf.init": "xray", "xsf.init_spectral_lines": "emission",
@@ -159,22 +159,34 @@ def shrink(h, bucket, canon):
     return H.ddmin(h, fails)
 
 
-def get_canon(alphabet):
+def prepare(tier):
+    """Run once per check, in a fresh process: the canonical observations and digest."""
     H.zygote_prepare()
-    return H.canonical(alphabet)
+    return H.canonical(full_alphabet(), par=16)
+
+
+def get_canon(ctx):
+    H.zygote_prepare()
+    canon = ctx.shared
+    for k, d in sorted(canon.get("unstable", {}).items())[:3]:
+        # an event that changes what the public table serves even after the canonical load
+        ctx.violation("c09:%s:after-canonical-load" % DIGEST_GROUP[d[0]],
+                      "event %s executed after the canonical prelude changes the values served for %s"
+                      % (k, ", ".join(d)), {"kind": "history", "events": H.canonical_prelude() + [k.split("/")]})
+    return canon
 
 
 # ----------------------------------------------------------------------
 def task_singles(ctx, par):
     alpha = full_alphabet()
-    canon = get_canon(alpha)
+    canon = get_canon(ctx)
     sweep(ctx, [[e] for e in alpha], canon, par)
     ctx.extra["alphabet"] = len(alpha)
 
 
 def task_pairs(ctx, par, shard, nshards, same_group_only):
     alpha = reduced_alphabet()
-    canon = get_canon(alpha)
+    canon = get_canon(ctx)
     pairs = []
     for a, b in itertools.product(alpha, alpha):
         if same_group_only:
@@ -189,7 +201,7 @@ def task_pairs(ctx, par, shard, nshards, same_group_only):
 
 def task_random(ctx, n, max_len, reduced):
     alpha = reduced_alphabet() if reduced else full_alphabet()
-    canon = get_canon(alpha)
+    canon = get_canon(ctx)
     strat = st.lists(st.sampled_from(alpha), min_size=2, max_size=max_len)
 
     def fn(c, h):
@@ -207,7 +219,7 @@ def task_random(ctx, n, max_len, reduced):
 def task_closure(ctx, par, max_states, reduced):
     """Breadth-first closure over abstract loader states."""
     alpha = reduced_alphabet() if reduced else full_alphabet()
-    canon = get_canon(alpha)
+    canon = get_canon(ctx)
     r0 = H.run_histories([[]], par=1)[0]
     reach = {r0["state"]: []}
     frontier = [r0["state"]]
@@ -258,8 +270,8 @@ def tasks(tier):
 
 
 def replay(ctx, case):
-    alpha = full_alphabet()
-    canon = get_canon(alpha)
+    H.zygote_prepare()
+    canon = ctx.shared
     h = case["events"]
     r = H.run_histories([h], par=1)[0]
     ctx.case(tuple(H.ev_key(e) for e in h), nontrivial=nontrivial(h))
